@@ -56,23 +56,21 @@ def _case(draw, fa, fb):
     # pen = f * min(ia, ib) and neither contains the other's centre
     # ... and by more than the bodies' meshes deviate from the ideal shapes
     # (icosphere of order 2: 1.5 % of the radius; 8 segments: 8 %), otherwise
-    # the polyhedral bodies may not touch at all in one of the two frames. A
-    # body whose mesh error exceeds a fifth of the smaller inradius is shrunk.
-    for _ in range(4):
-        ia, ib = _inradius(a), _inradius(b)
-        ea, eb = _mesh_error(a), _mesh_error(b)
-        if ea + eb <= 0.2 * min(ia, ib):
-            break
-        k = max(0.05, 0.18 * min(ia, ib) / (ea + eb))
-        _scale_body(a if ea >= eb else b, k)
+    # the polyhedral bodies may not touch at all in one of the two frames.
+    # Where the shapes do not allow that (a small or thin body against a large
+    # curved one) the case is marked and the relations under a rigid motion,
+    # which re-orients a sphere's facets relative to its partner, are not
+    # asserted for it.
     ia, ib = _inradius(a), _inradius(b)
-    pen = min(max(f * min(ia, ib), 2.5 * (_mesh_error(a) + _mesh_error(b))), 0.8 * min(ia, ib))
+    need = 2.5 * (_mesh_error(a) + _mesh_error(b))
+    robust = need <= 0.8 * min(ia, ib)
+    pen = min(max(f * min(ia, ib), need), 0.8 * min(ia, ib))
     b["p"] = (np.array(a["p"]) + (ia + ib - pen) * u).tolist()
     c3["p"] = (np.array(a["p"]) - 0.5 * min(ra, _body_radius(c3)) * u).tolist()
     g = {"R": draw(atoms.rotations(("random", "perm", "special"))),
          "t": draw(st.one_of(atoms.positions(10.0), atoms.pos_ball(300.0)))}
     ym = [draw(st.sampled_from([1.0, 0.01, 100.0, 3.0])) for _ in range(2)]
-    return {"a": a, "b": b, "c": c3, "g": g, "ym": ym}
+    return {"a": a, "b": b, "c": c3, "g": g, "ym": ym, "robust_overlap": bool(robust)}
 
 
 def _inradius(c):
@@ -103,12 +101,15 @@ def _mesh_error(c):
     return 0.0
 
 
-def _scale_body(c, k):
-    for key in ("radius", "size", "length", "height"):
-        if key in c:
-            c[key] = (np.array(c[key]) * k).tolist() if isinstance(c[key], list) else c[key] * k
-    if "radii" in c:
-        c["radii"] = [x * k for x in c["radii"]]
+def _robust_overlap(case):
+    """The inscribed balls of the two bodies overlap by at least 2.5 times the
+    mesh errors of both (computed from the specs, so that saved cases are
+    judged the same way)."""
+    a, b = case["a"], case["b"]
+    ia, ib = _inradius(a), _inradius(b)
+    need = 2.5 * (_mesh_error(a) + _mesh_error(b))
+    pen = ia + ib - float(np.linalg.norm(np.array(b["p"], dtype=float) - np.array(a["p"], dtype=float)))
+    return need <= 0.8 * min(ia, ib) and pen >= need * (1.0 - 1e-9)
 
 
 def strategy(cell):
@@ -193,6 +194,8 @@ def check_case(case, cell):
     r3 = call_lib(cf, moved(case["a"], case["g"]), ya, moved(case["b"], case["g"]), yb)
     if isinstance(r3, LibError):
         fails.append(fail("exception/contact_forces-moved/" + r3.type, repr(r3)))
+    elif not _robust_overlap(case):
+        labels.append("coarse-overlap:motion-not-asserted")
     else:
         i3, m12, m21 = r3
         m12 = np.asarray(m12, dtype=float)
